@@ -457,18 +457,89 @@ class Stepped(object):
             pass
 
 
+class SteppedFork(Stepped):
+    """child i of a forkstep launcher (all children share the one archive object the launcher created)"""
+    def __init__(self, wd, i):
+        ctl = os.path.join(wd, '.ctl')
+
+        class P(object):
+            pass
+        self.p = P()
+        self.p.stdin = open(os.path.join(ctl, 'in%d' % i), 'w')
+        self.p.stdout = open(os.path.join(ctl, 'out%d' % i), 'r')
+        self.p.stderr = open(os.devnull)
+        self.p.kill = lambda: None
+        self.p.wait = lambda timeout=None: 0
+        if self.p.stdout.readline().strip() != 'ready':
+            raise common.MachineryError('forked stepped worker did not get ready')
+        self.pending = None
+        self.res = None
+        self.trail = []
+        self.started = False
+
+
+def start_workers(backend, keys, init, ops, wd, shared):
+    if not shared:
+        return [Stepped(backend, keys, init, op, wd, noinit=i > 0) for i, op in enumerate(ops)], None
+    ctl = os.path.join(wd, '.ctl')
+    os.makedirs(ctl)
+    for i in range(1, len(ops) + 1):
+        os.mkfifo(os.path.join(ctl, 'in%d' % i))
+        os.mkfifo(os.path.join(ctl, 'out%d' % i))
+    spec = {'init': init, 'ops': ops, 'keys': keys}
+    launcher = subprocess.Popen([common.PY, '-m', 'harness.fs_worker', common.REPO, backend, wd, 'forkstep', json.dumps(spec)],
+                                stdin=subprocess.PIPE, stdout=subprocess.PIPE, stderr=subprocess.PIPE, text=True, env=worker_env(), cwd=wd)
+    if launcher.stdout.readline().strip() != 'forked':
+        raise common.MachineryError('fork launcher failed: %s' % launcher.stderr.read()[-800:])
+    return [SteppedFork(wd, i) for i in range(1, len(ops) + 1)], launcher
+
+
+def solo_steps(backend, keys, init, op, wd):
+    """the scheduling points one operation has when it runs alone on the current code"""
+    shutil.rmtree(wd, True)
+    os.makedirs(wd)
+    w = Stepped(backend, keys, init, op, wd, noinit=False)
+    try:
+        w.start()
+        while not w.done():
+            w.step()
+        return list(w.trail)
+    finally:
+        w.close()
+        shutil.rmtree(wd, True)
+
+
+def order_schedules(counts, maxsw, work):
+    """TLC (specs/Interleave.tla): every interleaving of processes taking counts[i] steps, with <= maxsw context switches"""
+    c = list(counts) + [0] * (3 - len(counts))
+    p = os.path.join(work, 'il-%d-%d-%d-sw%d.cfg' % (c[0], c[1], c[2], maxsw))
+    open(p, 'w').write('SPECIFICATION Spec\nCONSTANTS\n  S1 = %d\n  S2 = %d\n  S3 = %d\n  MAXSW = %d\nINVARIANT Emit\n'
+                       'CONSTRAINT FewSwitches\nCHECK_DEADLOCK FALSE\n' % (c[0], c[1], c[2], maxsw))
+    r = common.run_tlc('Interleave', p, workdir=work, workers=1, timeout=600, heap='2g')
+    out = [json.loads(m.group(1).replace('\\"', '"'))['order'] for m in re.finditer(r'<<"ORDER", "(.*)">>', r.out)]
+    if not out:
+        raise common.MachineryError('Interleave produced nothing: %s' % r.out[-800:])
+    return out, r.distinct, r.generated
+
+
 def run_schedule(job):
-    backend, keys, sid, init, ops, sched, wd, predicted = job
+    backend, keys, sid, init, ops, sched, wd, predicted = job[:8]
+    shared = len(job) > 8 and job[8]
     shutil.rmtree(wd, True)
     os.makedirs(wd)
     ws = []
+    launcher = None
     try:
-        for i, op in enumerate(ops):
-            ws.append(Stepped(backend, keys, init, op, wd, noinit=i > 0))
+        ws, launcher = start_workers(backend, keys, init, ops, wd, shared)
         for w in ws:
             w.start()
         order = []
-        for p, lab in sched:
+        for x in sched:
+            if isinstance(x, int):             # order mode: one real step of that process
+                if not ws[x - 1].done():
+                    order.append([x, ws[x - 1].step()])
+                continue
+            p, lab = x
             if lab.startswith('end') or lab == 'KILL':
                 continue
             w = ws[p - 1]
@@ -489,12 +560,22 @@ def run_schedule(job):
     finally:
         for w in ws:
             w.close()
+        if launcher is not None:
+            try:
+                launcher.wait(timeout=20)
+            except Exception:
+                launcher.kill()
+            for f in (launcher.stdin, launcher.stdout, launcher.stderr):
+                try:
+                    f.close()
+                except Exception:
+                    pass
     view = view_of(backend, wd, keys)
     shutil.rmtree(wd, True)
     rr = [{'ok': r['ok'], 'exc': r['exc'], 'i': r['i'], 'm': r['m']} for r in res]
     return {'events': [{'kind': 'conc', 'single': backend.startswith('file'), 'M': init, 'ops': ops, 'res': rr, 'view': view}],
             'meta': {'backend': backend, 'keys': keys, 'scenario': sid, 'init': init, 'ops': ops, 'schedule': sched, 'real_order': order,
-                     'results': res, 'model_predicts_violation': bool(predicted)}}
+                     'results': res, 'model_predicts_violation': bool(predicted), 'shared_handle': bool(shared)}}
 
 
 def conc_signature(t, v):
@@ -504,7 +585,7 @@ def conc_signature(t, v):
             'excs': sorted({r['exc'] for r in m['results'] if not r['ok']}),
             'overwrite': any(o['t'] in ('set', 'update', 'dump') and m['init'][o['k'] - 1] != 0 for o in m['ops']),
             'removal': any(o['t'] in ('del', 'pop', 'clear') for o in m['ops']),
-            'opener': any(o['t'] == 'open' for o in m['ops'])}
+            'opener': any(o['t'] == 'open' for o in m['ops']), 'shared_handle': bool(m.get('shared_handle'))}
 
 
 def check_C14(tier):
@@ -556,11 +637,42 @@ def check_C14(tier):
             for b in bs:
                 keys = 'tuple' if (b == 'dir' and n % 4 == 3) else 'str'
                 jobs.append((b, keys, sid, init, ops, x['sched'], os.path.join(root, 'c%d' % len(jobs)), x['bad']))
-        if module == 'DirFS':
-            # the sqlite table gets the same scenarios; its own statement-level points are passed through in the
-            # schedule's process order
-            for n, x in enumerate(pick[:(20 if thorough else 4)]):
-                jobs.append(('sql-file', 'str', sid, init, ops, x['sched'], os.path.join(root, 'c%d' % len(jobs)), False))
+        # one archive object shared by forked children (multiprocessing 'fork'): a few schedules per writer/writer scenario
+        if module == 'DirFS' and sid in (11, 21, 22):
+            for n, x in enumerate(pick[:(12 if thorough else 4)]):
+                jobs.append(('dir', 'tuple' if n % 2 else 'str', sid, init, ops, x['sched'], os.path.join(root, 'c%d' % len(jobs)), x['bad'], True))
+    # schedules over the REAL scheduling points of each operation (measured in a solo run of the code under test):
+    # every interleaving for the sqlite table (its points are SQL statements), a sample for the others
+    solo_root = common.scratch('fs-solo')
+    ojobs = []
+    for sid in DIR_SCEN:
+        init, ops = CONC_SCEN[sid]
+        for b in ['sql-file', 'dir'] + (['file'] if sid in FILE_SCEN else []):
+            ojobs.append((b, sid, init, ops))
+    for sid in FILE_SCEN:
+        if sid not in DIR_SCEN:
+            init, ops = CONC_SCEN[sid]
+            ojobs.append(('file', sid, init, ops))
+
+    def plan_orders(oj):
+        b, sid, init, ops = oj
+        counts = [len(solo_steps(b, 'str', init, op, os.path.join(solo_root, 's-%s-%d-%d' % (b, sid, i)))) for i, op in enumerate(ops)]
+        if b.startswith('sql'):
+            sw = 9
+        else:
+            sw = 2 if not thorough else 3
+        orders, st_, tr_ = order_schedules(counts, sw, work)
+        return oj, counts, orders, st_, tr_
+    with ThreadPoolExecutor(max_workers=8) as ex:
+        oplans = list(ex.map(plan_orders, ojobs))
+    for (b, sid, init, ops), counts, orders, st_, tr_ in oplans:
+        gen_states += st_
+        gen_trans += tr_
+        nsched += len(orders)
+        rng.shuffle(orders)
+        cap = (200 if thorough else 12) if b.startswith('sql') else (40 if thorough else 3)
+        for order in orders[:cap]:
+            jobs.append((b, 'str', sid, init, ops, order, os.path.join(root, 'c%d' % len(jobs)), False))
     t0 = time.time()
     with ThreadPoolExecutor(max_workers=max(2, common.NCPU // 2)) as ex:
         traces = list(ex.map(run_schedule, jobs))
